@@ -58,6 +58,42 @@ impl Term {
         }
     }
 
+    /// names of the map key parameters bound to a term that cannot be used as a map key
+    /// (only integers and strings can): `apply_parameters` leaves those in place
+    pub(super) fn extract_invalid_key_parameters(
+        &self,
+        parameters: &HashMap<String, Option<Term>>,
+        invalid: &mut Vec<String>,
+    ) {
+        match self {
+            Term::Set(s) => {
+                for term in s {
+                    term.extract_invalid_key_parameters(parameters, invalid);
+                }
+            }
+            Term::Array(a) => {
+                for term in a {
+                    term.extract_invalid_key_parameters(parameters, invalid);
+                }
+            }
+            Term::Map(m) => {
+                for (key, term) in m {
+                    if let MapKey::Parameter(name) = key {
+                        if let Some(Some(key_term)) = parameters.get(name) {
+                            if !matches!(key_term, Term::Integer(_) | Term::Str(_))
+                                && !invalid.contains(name)
+                            {
+                                invalid.push(name.to_string());
+                            }
+                        }
+                    }
+                    term.extract_invalid_key_parameters(parameters, invalid);
+                }
+            }
+            _ => {}
+        }
+    }
+
     pub(super) fn apply_parameters(self, parameters: &HashMap<String, Option<Term>>) -> Term {
         match self {
             Term::Parameter(name) => {
